@@ -66,10 +66,10 @@ def _load(pid):
 _MOD = None
 
 
-def _init_worker(pid):
+def _init_worker(pid, runid=None):
     global _MOD
     os.environ.setdefault("VERIF_WORKER", "1")
-    scratch = os.path.join(ROOT, ".scratch", "w%d" % os.getpid())
+    scratch = os.path.join(ROOT, ".scratch", "run%s" % (runid or os.getpid()), "w%d" % os.getpid())
     os.makedirs(scratch, exist_ok=True)
     os.chdir(scratch)
     _MOD = _load(pid)
@@ -120,11 +120,8 @@ def _match_known(pid, key, known):
 
 
 def _cleanup_scratch():
-    d = os.path.join(ROOT, ".scratch")
-    if os.path.isdir(d):
-        for n in os.listdir(d):
-            if n.startswith("w"):
-                shutil.rmtree(os.path.join(d, n), ignore_errors=True)
+    # only this run's own scratch directory (several checks may run at the same time)
+    shutil.rmtree(os.path.join(ROOT, ".scratch", "run%d" % os.getpid()), ignore_errors=True)
 
 
 def execute(pid, tier, seed, only_case=None, jobs=None):
@@ -141,7 +138,7 @@ def execute(pid, tier, seed, only_case=None, jobs=None):
     jobs = max(1, min(jobs, len(cases)))
     results = []
     if jobs == 1 or getattr(mod, "INPROCESS", False):
-        _init_worker(pid)
+        _init_worker(pid, os.getpid())
         for c in cases:
             results.append(_run_case(c))
         determinism = None
@@ -154,7 +151,7 @@ def execute(pid, tier, seed, only_case=None, jobs=None):
 
         ctx = mp.get_context("spawn")
         with cf.ProcessPoolExecutor(
-            max_workers=jobs, mp_context=ctx, initializer=_init_worker, initargs=(pid,)
+            max_workers=jobs, mp_context=ctx, initializer=_init_worker, initargs=(pid, os.getpid())
         ) as ex:
             # longest first (modules may give a cost hint), results merged in plan order
             order = sorted(range(len(cases)), key=lambda i: -cases[i].get("cost", 1))
